@@ -7,10 +7,11 @@ of request / response payloads while a fault script loses or corrupts frames
 that follow activation (slot 0 = the first DEP_REQ on the air).
 
 legs
-  enum     bounded-exhaustive: a fixed + seeded configuration list x every
-           script with <= 2 faults in {lose, corrupt} among the first N frame
-           slots of the configuration's fault-free run (quick: all singles and
-           a seeded sample of the pairs; thorough: complete)
+  single   bounded-exhaustive: a fixed + seeded configuration list x the
+           fault-free run and every single fault in {lose, corrupt} among the
+           first N <= 24 frame slots of the configuration's fault-free run
+  pairs    (thorough) the same configurations x every pair of faults
+  pairs-sample (quick) 160 seeded pairs per configuration
   random   Hypothesis: configurations x payload size lists x sparse scripts
            (0..4 faults anywhere) and dense scripts (5-40 % of the slots)
   clean    Hypothesis: fault-free conversations over the whole configuration
@@ -239,8 +240,7 @@ def judge(case, ctx, clean=False):
                                   for f in (last["frames"] if last else []))))
                 v = Violation("transparency", detail)
                 if e is not None:
-                    u = unexpected(e)
-                    v.exc, v.frame = u.exc, u.frame
+                    v.exc, v.frame = dp.nfc_frame(e)
                 flag(ctx, cls, v)
     except Excluded:
         return
@@ -382,37 +382,70 @@ def enum_configs(tier, seed):
     return out, rng
 
 
-def enum_cases(tier, seed):
-    configs, rng = enum_configs(tier, seed)
-    kinds = ("lose", "corrupt")
+def config_slots(tier, seed):
+    """[(configuration, number of enumerated frame slots)]"""
+    configs, _ = enum_configs(tier, seed)
+    out = []
     for c in configs:
-        base = dict(c, script=[])
-        cfg, reqs, ress, _ = materialise(base)
+        cfg, reqs, ress, _ = materialise(dict(c, script=[]))
         r = dp.converse(cfg, reqs, ress, {})
-        n = min(NMAX, len([f for f in r.frames if f["code"] == "DEP"]))
-        yield base
+        out.append((c, min(NMAX, len([f for f in r.frames
+                                      if f["code"] == "DEP"]))))
+    return out
+
+
+KINDS = ("lose", "corrupt")
+
+
+def enum_single(tier, seed):
+    for c, n in config_slots(tier, seed):
+        yield dict(c, script=[])
         for i in range(n):
-            for k in kinds:
+            for k in KINDS:
                 yield dict(c, script=[[i, k]])
-        pairs = [[[i, a], [j, b]]
-                 for i, j in itertools.combinations(range(n), 2)
-                 for a in kinds for b in kinds]
-        if tier == "quick":
-            pairs = rng.sample(pairs, min(len(pairs), 160))
-        for p in pairs:
+
+
+def all_pairs(n):
+    return [[[i, a], [j, b]] for i, j in itertools.combinations(range(n), 2)
+            for a in KINDS for b in KINDS]
+
+
+def enum_pairs(tier, seed):
+    for c, n in config_slots(tier, seed):
+        for p in all_pairs(n):
             yield dict(c, script=p)
 
 
+def enum_pairs_sample(tier, seed):
+    for idx, (c, n) in enumerate(config_slots(tier, seed)):
+        rng = _random.Random(derive_seed(seed, PROPERTY, "pairs", idx))
+        pairs = all_pairs(n)
+        for p in rng.sample(pairs, min(len(pairs), 160)):
+            yield dict(c, script=p)
+
+
+CONFIGS = ("8 hand-written + seeded configurations (40 quick / 300 thorough: "
+           "brs, start 106A/212F/424F, lri, lrt, rwt, DID on every fifth, "
+           "NAD, general bytes, 5-7 exchanges with sizes around multiples of "
+           "the MIU)")
+NT_RULE = ("non-trivial = a fault hit a chained (I++) PDU, an ACK, an ATN/NAK "
+           "recovery frame, or a step after the PNI wrap (step index >= 4).")
+
 LEGS = [
-    Leg("enum", run=run, enum=enum_cases, exhaustive=True,
-        shards_quick=12, shards_thorough=16,
-        rule="8 hand-written + seeded configurations (40 quick / 300 "
-             "thorough) x {fault-free, every single fault, every pair of "
-             "faults (quick: 160 seeded pairs per configuration)} in {lose, "
+    Leg("single", run=run, enum=enum_single, exhaustive=True,
+        shards_quick=8, shards_thorough=8,
+        rule=CONFIGS + " x {fault-free run, every single fault in {lose, "
              "corrupt} over the first min(24, length) frame slots of the "
-             "fault-free run; non-trivial = a fault hit a chained (I++) PDU, "
-             "an ACK, an ATN/NAK recovery frame, or a step after the PNI "
-             "wrap (step index >= 4)."),
+             "fault-free run}; " + NT_RULE),
+    Leg("pairs", run=run, enum=enum_pairs, exhaustive=True,
+        tiers=("thorough",), shards_thorough=16,
+        rule=CONFIGS + " x every pair of faults in {lose, corrupt}^2 over "
+             "the first min(24, length) frame slots (slot numbers refer to "
+             "the faulty run, so the second fault also lands on recovery "
+             "frames); " + NT_RULE),
+    Leg("pairs-sample", run=run, enum=enum_pairs_sample, exhaustive=False,
+        tiers=("quick",), shards_quick=12,
+        rule="as leg pairs, 160 seeded pairs per configuration."),
     Leg("random", run=run, gen=lambda tier: st_case(), quick=3200,
         thorough=30000, shards_quick=8, shards_thorough=16, nt_floor=0.3,
         rule="Hypothesis: brs 0-2 x start 106A/212F/424F x lri/lrt 0-3 x "
